@@ -486,6 +486,25 @@ FamStatus(K, CH) ==
           \cup {Scn(gr, <<Build(Roots(gr), 2, 1), c, BX(Roots(gr), 3, 1, [printer |-> m])>>) : m \in {"pipe", "tty"}, c \in Pick(CH, {x \in Changes(gr) : x.op = "touch"})} :
           gr \in StatusGraphs(K) }
 
+(***************************************************************************)
+(* C19, the read-only tools of the real binary: every tool is run on a      *)
+(* fresh tree, after a build and a change, and before the builds that must  *)
+(* behave as if the tools had not run; command lines and descriptions carry *)
+(* quotes, backslashes, control characters and non-ASCII bytes.             *)
+(***************************************************************************)
+Decors == {"", "quotes", "ctrl", "utf8", "bad8"}
+WithDecor(gr, da) == [gr EXCEPT !.stmts = [i \in DOMAIN gr.stmts |-> [decor |-> da[i]] @@ gr.stmts[i]]]
+ToolsOp(t) == [op |-> "tools", targets |-> t]
+ToolGraphs(K) ==
+  UNION { UNION { {WithDecor(gr, da) : da \in RandomSubset(1, [1..Len(gr.stmts) -> Decors])} :
+                  gr \in GraphsS(sh, {"plain", "restat", "gcc", "depfile", "two", "rsp", "gen", "iout"}, K) } :
+          sh \in {"chain2", "chain3", "fanin", "fanout", "mixed", "alias", "implicit", "oonly", "valid", "validch", "validrev", "group", "diamond", "aliasoo"} }
+FamTools(K, CH) ==
+  UNION { {Scn(gr, <<ToolsOp(t), Build(Roots(gr), 2, 1)>>) : t \in {Roots(gr)}}
+          \cup {Scn(gr, <<Build(Roots(gr), 2, 1), c, ToolsOp(t), Build(Roots(gr), 2, 1), Build(Roots(gr), 2, 1)>>) :
+                  c \in Pick(CH, ChangesET(gr)), t \in {Roots(gr)} \cup Pick(1, {<<o>> : o \in AllOutsG(gr)})} :
+          gr \in ToolGraphs(K) }
+
 \* graphs for the design-level model checking of NinjaImplMC (no histories: TLC explores them)
 FamMC(K, CH) ==
   UNION {GraphsS(sh, {"plain", "restat", "gcc", "two", "gen", "depfile"}, K) : sh \in {"chain2", "fanin", "fanout", "implicit", "oonly", "alias", "valid", "mixed", "chain3"}}
@@ -514,6 +533,7 @@ Family(name) ==
     [] name = "intr" -> FamIntr(ParK, ParCH)
     [] name = "crash" -> FamCrash(ParK, ParCH)
     [] name = "status" -> FamStatus(ParK, ParCH)
+    [] name = "tools" -> FamTools(ParK, ParCH)
 
 Fam == IF "FAM" \in DOMAIN IOEnv THEN IOEnv.FAM ELSE "sched"
 Out == IF "OUT" \in DOMAIN IOEnv THEN IOEnv.OUT ELSE "scenarios.ndjson"
